@@ -13,4 +13,4 @@ cd /verif
 tools/validate_seeded.sh "seeded/$P-$S" > "/tmp/t1/val_$P-$S.txt" 2>&1
 cat "/tmp/t1/val_$P-$S.txt"
 [ $# -eq 0 ] && set -- "$P"
-KEEP_REPLAY=/tmp/t1/keep_$P-$S tools/mutant_run.sh "seeded/$P-$S/patch.diff" "$@" | tee "/tmp/t1/mut_$P-$S.txt"
+KEEP_REPLAY=/tmp/t1/keep_$P-$S tools/mutant_run.sh "$D/patch.diff" "$@" | tee "/tmp/t1/mut_$P-$S.txt"
